@@ -87,8 +87,8 @@ def main() -> int:
     rep = Report(PROP)
     t = tier()
     sd = seed()
-    n_lists = 80 if t == "quick" else 1200
-    n_prog = 40 if t == "quick" else 600
+    n_lists = 200 if t == "quick" else 1500
+    n_prog = 80 if t == "quick" else 600
     cases = [("lists", i, sd, (), t == "thorough" or i % 4 == 0) for i in range(n_lists)]
     cases += [("prog", i, sd, (), i % 4 == 0) for i in range(n_prog)]
     if t == "thorough":
